@@ -502,8 +502,14 @@ namespace bluetoe {
         // clip the output size to the negotiated mtu
         out_size = std::min< std::size_t >( out_size, connection.negotiated_mtu() );
 
-        assert( in_size != 0 );
         assert( out_size >= details::default_att_mtu_size );
+
+        // a L2CAP frame without payload contains no opcode to respond to
+        if ( in_size == 0 )
+        {
+            out_size = 0;
+            return;
+        }
 
         const details::att_opcodes opcode = static_cast< details::att_opcodes >( input[ 0 ] );
 
